@@ -164,27 +164,137 @@ def ql(a):
 
 
 # ------------------------------------------------------------------ running the implementation
+LAYOUTS = ("C", "R", "F", "K", "C", "B", "S", "P")
+LAYOUT_DESCR = {"C": "a C-contiguous array", "F": "np.asfortranarray(x) (what a chain of transposes reversing all axes produces)",
+                "S": "big[..., ::2] (strided last axis)", "R": "big[:, :, 2:-2, :] (rows cropped; 3-D: big[:, :, 1:-1])",
+                "K": "big[:, 1:1+C] (channel slice)", "B": "big[::2] (every other batch entry)", "P": "y.transpose(0, 1) of a (C, N, ...) array"}
+FILL = 7777.0       # what lies next to the operand in the parent buffer of a view: reading it must show
+
+
 def T(a, requires_grad=False, layout="C"):
-    """float64 Tensor with the given values; layout 'C' (contiguous), 'F' (Fortran order: what a chain of transposes that reverses all
-    axes produces) or 'S' (a non-contiguous strided view).  The ops must not depend on the memory layout of their operands."""
+    """float64 Tensor with the given values in one of several memory layouts (see LAYOUT_DESCR): contiguous, Fortran order, or a
+    non-contiguous view of a larger buffer — with a strided last axis ('S') or with a still dense last axis ('R', 'K', 'B', 'P').
+    The ops must not depend on the memory layout of their operands."""
     impl = _impl()
     np = impl.np
     arr = np.array(a, dtype=np.float64)
-    if layout == "F" and arr.ndim > 1:
+    nd = arr.ndim
+    if arr.size == 0 or nd == 0:
+        return impl.synapgrad.Tensor(arr, requires_grad=requires_grad)
+    if layout == "F" and nd > 1:
         arr = np.asfortranarray(arr)
-    elif layout == "S" and arr.ndim > 0 and arr.size > 0:
-        big = np.zeros(arr.shape[:-1] + (2 * arr.shape[-1],), dtype=np.float64)
+    elif layout == "S":
+        big = np.full(arr.shape[:-1] + (2 * arr.shape[-1],), FILL)
         big[..., ::2] = arr
         arr = big[..., ::2]
+    elif layout == "R" and nd >= 3:
+        if nd == 4:
+            big = np.full(arr.shape[:2] + (arr.shape[2] + 4, arr.shape[3]), FILL)
+            big[:, :, 2:-2, :] = arr
+            arr = big[:, :, 2:-2, :]
+        else:
+            big = np.full(arr.shape[:-1] + (arr.shape[-1] + 2,), FILL)
+            big[..., 1:-1] = arr
+            arr = big[..., 1:-1]
+    elif layout == "K" and nd >= 2:
+        big = np.full((arr.shape[0], arr.shape[1] + 2) + arr.shape[2:], FILL)
+        big[:, 1:1 + arr.shape[1]] = arr
+        arr = big[:, 1:1 + arr.shape[1]]
+    elif layout == "B":
+        big = np.full((2 * arr.shape[0],) + arr.shape[1:], FILL)
+        big[::2] = arr
+        arr = big[::2]
+    elif layout == "P" and nd >= 2:
+        arr = np.ascontiguousarray(arr.swapaxes(0, 1)).swapaxes(0, 1)
     return impl.synapgrad.Tensor(arr, requires_grad=requires_grad)
 
 
+# ------------------------------------------------------------------ isolation: calls on non-contiguous operands run in a worker process
+class _Worker:
+    """A forked worker that executes implementation calls; if a call kills the interpreter (out-of-bounds strided view ...) the
+    parent sees the pipe close, reports ('crash', description) for that call and forks a new worker for the next one."""
+
+    def __init__(self):
+        self.pid = None
+
+    def start(self):
+        import pickle
+        r1, w1 = os.pipe()
+        r2, w2 = os.pipe()
+        pid = os.fork()
+        if pid == 0:
+            os.close(w1); os.close(r2)
+            fin, fout = os.fdopen(r1, "rb"), os.fdopen(w2, "wb")
+            while True:
+                try:
+                    f, a, k = pickle.load(fin)
+                except Exception:       # noqa: BLE001  (EOF: the parent is gone)
+                    os._exit(0)
+                try:
+                    res = ("ok", f(*a, **k))
+                except Exception as ex:      # noqa: BLE001
+                    res = ("raises", type(ex).__name__)
+                try:
+                    pickle.dump(res, fout); fout.flush()
+                except Exception:       # noqa: BLE001
+                    os._exit(1)
+        os.close(r1); os.close(w2)
+        self.fin, self.fout, self.pid = os.fdopen(r2, "rb"), os.fdopen(w1, "wb"), pid
+
+    def stop(self):
+        if self.pid is None:
+            return None
+        for fh in (self.fout, self.fin):
+            try:
+                fh.close()
+            except Exception:       # noqa: BLE001
+                pass
+        try:
+            _, status = os.waitpid(self.pid, 0)
+        except ChildProcessError:
+            status = 0
+        self.pid = None
+        return status
+
+    def call(self, f, a, k):
+        import pickle
+        if self.pid is None:
+            self.start()
+        try:
+            pickle.dump((f, a, k), self.fout); self.fout.flush()
+            return pickle.load(self.fin)
+        except (EOFError, BrokenPipeError, pickle.UnpicklingError, OSError):
+            status = self.stop()
+            if status is not None and os.WIFSIGNALED(status):
+                return ("crash", "interpreter killed by signal %d" % os.WTERMSIG(status))
+            return ("crash", "interpreter exited with status %s" % (status,))
+
+
+_WORKER = _Worker()
+
+
+def describe_call(f, P):
+    g = P.get("g", {})
+    geo = ", ".join("%s=%s" % (k, g[k]) for k in g)
+    return "%s(%s) on x = %s; geometry %s" % (getattr(f, "__name__", "call"), P.get("op"), LAYOUT_DESCR.get(P.get("layout", "C")), geo)
+
+
 def call(f, *a, **k):
-    """('ok', value) | ('raises', ExceptionName)"""
+    """('ok', value) | ('raises', ExceptionName) | ('crash', description).  A call whose first argument is a payload with a
+    non-C-contiguous operand layout is executed in the worker process, so that an interpreter crash becomes a result."""
+    P = a[0] if a and isinstance(a[0], dict) else None
+    if P is not None and (P.get("layout", "C") != "C" or os.environ.get("VERIF_ISOLATE_ALL")):
+        r = _WORKER.call(f, a, k)
+        if r[0] == "crash":
+            return ("crash", "%s in %s" % (r[1], describe_call(f, P)))
+        return r
     try:
         return ("ok", f(*a, **k))
     except Exception as ex:      # noqa: BLE001  (every exception is a rejection)
         return ("raises", type(ex).__name__)
+
+
+CRASH_EXPECTED = "a result or a Python exception (the op must not depend on the memory layout of its operand)"
 
 
 def fwd_bwd(build, gshape_rng=None, upstream=None):
@@ -384,6 +494,7 @@ def impl_scalar(P, arrays):
     np = _impl().np
     Q = dict(P)
     Q.update(arrays)
+    Q["layout"] = "C"        # the derivative of the computed function, on contiguous copies (calls on views are isolated elsewhere)
     out = run_impl(Q)["out"]
     up = np.array(P["up"], dtype=np.float64)
     m = np.isfinite(out)
@@ -508,6 +619,8 @@ def oracle_forward(P, observed):
     """Judge a forward call on the implementation without the Coq model.  observed = ('ok', ndarray) | ('raises', name).
     Returns None when the property holds on this call, otherwise dict(expected=, observed=, note=)."""
     acc = spec_accepts(P)
+    if observed[0] == "crash":
+        return {"expected": CRASH_EXPECTED, "observed": observed[1], "note": observed[1]}
     if observed[0] == "raises":
         if acc:
             return {"expected": "accepted (documented configuration with a non-empty output)", "observed": "raises " + observed[1],
@@ -567,6 +680,8 @@ def term_forward(P, observed):
     op, g = P["op"], P["g"]
     np = _impl().np
     G = geom2_coq(g) if is2d(op) else geom1_coq(g)
+    if observed[0] == "crash":
+        return "false"
     if observed[0] == "raises":
         acc = {"conv2d": "accepts_conv2d %d %d %d" % (np.array(P["x"]).ndim, np.array(P["w"]).ndim, np.array(P["w"]).shape[1] if np.array(P["w"]).ndim > 1 else -1),
                "conv1d": "accepts_conv1d %d %d %d" % (np.array(P["x"]).ndim, np.array(P["w"]).ndim, np.array(P["w"]).shape[1] if np.array(P["w"]).ndim > 1 else -1),
